@@ -200,7 +200,7 @@ var importers = []importerSpec{
 		Write: func(rows []stRow) []byte {
 			recs := [][]string{{"Type", "Product", "Started Date", "Completed Date", "Description", "Amount", "Fee", "Currency", "State", "Balance"}}
 			for _, r := range rows {
-				d := dayToTime(r.Z).Format("2006-01-02") + " 10:00:00"
+				d := dayToTime(r.Z).Format("2006-01-02") + fmt.Sprintf(" %02d:%02d:59", (r.Z*5+abs(r.Amt))%24, abs(r.Amt)%60)
 				recs = append(recs, []string{"CARD_PAYMENT", "Current", d, d, r.Text, amt2(r.Amt), amt2(r.Fee), r.Cur, "COMPLETED", amt2(r.Bal)})
 			}
 			return csvBytes(',', recs)
